@@ -64,6 +64,8 @@ static pthread_mutex_t dm = PTHREAD_MUTEX_INITIALIZER; static pthread_cond_t dcv
 #define RC(call) do { if ((call) != 0) rc_flags |= 256; } while (0)
 static void once0(void) { once_cnt[0]++; } static void once1(void) { sched_yield(); once_cnt[1]++; } static void once2(void) { once_cnt[2]++; }
 static void (* const once_fn[3])(void) = { once0, once1, once2 };
+static pthread_key_t padkeys[64]; static int kpad;
+static void dtor_pad(void * v) { if (!v) return; pthread_mutex_lock(&logm); if (ndlog < 256) dlog[ndlog++] = -(long)(intptr_t)v; pthread_mutex_unlock(&logm); }
 static void dtor(void * v) { if (!v) return; pthread_mutex_lock(&logm); if (ndlog < 256) dlog[ndlog++] = (long)(intptr_t)v; pthread_mutex_unlock(&logm); }
 
 static void * child(void * a) {
@@ -169,7 +171,7 @@ int main(int argc, char ** argv) {
   /* decode */
   T = rd_range(&r, 1, 6); nph = rd_range(&r, 1, MAXPH);
   for (int t = 0; t < T; t++) { thr_attr[t] = (int)rd_below(&r, 3); thr_exit[t] = (int)rd_below(&r, 2); }
-  { unsigned d = (unsigned)(T * 5 + nph * 3 + thr_attr[0] * 7 + thr_exit[0]); for (int k = 0; k < 3; k++) dyn_for[k] = (int)((d >> k) & 1); ts_signal = (int)((d >> 3) & 1); }
+  { unsigned d = (unsigned)(T * 5 + nph * 3 + thr_attr[0] * 7 + thr_exit[0]); for (int k = 0; k < 3; k++) dyn_for[k] = (int)((d >> k) & 1); ts_signal = (int)((d >> 3) & 1); kpad = (int[]){ 0, 16, 17, 60 }[(d >> 4) & 3]; }
   for (int i = 0; i < nph; i++) {
     unsigned k = rd_below(&r, P_N), a = rd_u8(&r), b = rd_u8(&r);
     ph[i].kind = (int)k; ph[i].a = (int)(a % 3); ph[i].b = (int)(b % 12); ph[i].v = (int)((a >> 4) ^ (b >> 5)) & 15;
@@ -181,6 +183,7 @@ int main(int argc, char ** argv) {
     static const char * nm[] = { "counter", "trycounter", "barrier", "turnstile", "spin", "once", "keyset", "keyget", "child", "yield", "sleep", "self", "gate" };
     for (int i = 0; i < nph; i++) printf(" %s(%d,%d;v%d)", nm[ph[i].kind], ph[i].a, ph[i].b, ph[i].v);
     printf("\n turnstile spelling: %s; counters protected by:", ts_signal ? "per-thread condvars + signal" : "one condvar + broadcast"); for (int k = 0; k < 3; k++) printf(" %s", dyn_for[k] ? "mutex_init(attr)" : "static initialiser");
+    printf("; %d unrelated keys created before the four in use", kpad);
     printf("\n attrs:"); for (int t = 0; t < T; t++) printf(" %d/%s", thr_attr[t], thr_exit[t] ? "exit" : "ret"); printf("\n");
     return 0;
   }
@@ -205,6 +208,9 @@ int main(int argc, char ** argv) {
     for (int k = 0; k < MAXPH; k++) if (pthread_cond_init(&gate_cv[k], k & 1 ? &ca : 0)) rc_flags |= 16;
     for (int k = 0; k < 8; k++) if (pthread_cond_init(&tcv[k], 0)) rc_flags |= 16;
     pthread_mutexattr_destroy(&ma); pthread_condattr_destroy(&ca); }
+  /* other keys of the program that these threads never touch, created first: the four keys in use then sit behind
+     index 16 / 17 / 60 and the threads' key stores have empty lower parts; their destructors log under another tag */
+  for (int k = 0; k < kpad; k++) RC(pthread_key_create(&padkeys[k], k % 3 == 2 ? 0 : dtor_pad));
   for (int k = 0; k < 4; k++) { key_has_dtor[k] = (k != 3); RC(pthread_key_create(&keys[k], key_has_dtor[k] ? dtor : 0)); }
   for (int t = 0; t < T; t++) {
     pthread_attr_t at; pthread_attr_t * ap = 0;
@@ -221,6 +227,7 @@ int main(int argc, char ** argv) {
     for (int k = 0; k < MAXPH; k++) e |= pthread_cond_destroy(&gate_cv[k]);
     for (int k = 0; k < 8; k++) e |= pthread_cond_destroy(&tcv[k]);
     for (int k = 0; k < 4; k++) e |= pthread_key_delete(keys[k]);
+    for (int k = 0; k < kpad; k++) e |= pthread_key_delete(padkeys[k]);
     if (e) rc_flags |= 32; }
   if (controlled) { mv_finished(); mv_disable(); }
   /* canonical result */
